@@ -271,7 +271,7 @@ struct Node {
     bool usable = true;
     // the context pointer the daemon hands to the core: the node itself, or - after the interface was re-created (hot-plug) - a fresh
     // address from the node's slot array; the core keeps one record per context pointer it has ever seen
-    uint8_t ctxslot[256];
+    uint8_t ctxslot[1024];
     int ctx_gen = 0;
     void *ctx() { return cfg.null_ctx && ctx_gen == 0 ? nullptr : (ctx_gen == 0 ? (void *)this : (void *)&ctxslot[ctx_gen - 1]); }
     bool owns_ctx(const void *p) const { return (p == nullptr && cfg.null_ctx) || p == (const void *)this || ((const uint8_t *)p >= ctxslot && (const uint8_t *)p < ctxslot + sizeof ctxslot); }
